@@ -36,6 +36,12 @@ func (s *sim) applyKnobs(cfg *config.Configuration) {
 		// CRCOnlyDPOSHeight-PreConnectOffset on (checkpoint StartHeight)
 		cfg.VoteStartHeight = 1
 		cfg.DPoSConfiguration.PreConnectOffset = 1
+		if nb := p.Knob("nbtime", 0); nb > 0 {
+			// how long the chain must have been silent before a revert-to-PoW
+			// transaction is admissible
+			cfg.DPoSConfiguration.RevertToPOWNoBlockTime = nb
+			cfg.DPoSConfiguration.RevertToPOWNoBlockTimeV1 = nb
+		}
 	}
 	// compressed issuance schedule (C11)
 	if v := p.Knob("newissue", -1); v >= 0 {
